@@ -90,6 +90,18 @@ Theorem C16_signed_portion sign a m kn s :
 Proof. exact (new_cert_signed sign a m kn s). Qed.
 Print Assumptions C16_signed_portion.
 
+(* "whose signature verifies under the issuing key": a verifier reads the signed portion and the SignatureValue off the
+   certificate (strictly); for every verification function that accepts what the signer produces for a message --
+   correctness of the signature scheme, a hypothesis; the real verify_* functions are exercised on every run -- it accepts *)
+Theorem C16_verifies sign (verify : bytes -> bytes -> bool) a m kn s :
+  (forall msg, verify msg (sign msg) = true) ->
+  new_cert sign a = Ok m -> legal a kn -> c_signer a = Some s -> N.of_nat (length (m_wire m)) < two64 ->
+  exists body vs msg sigv,
+    m_wire m = tlv TYPE_DATA body /\ strict_cert (m_wire m) = Ok vs /\
+    signed_portion_data body = Some msg /\ signature_of vs = VBytes sigv /\ verify msg sigv = true.
+Proof. exact (new_cert_verifies sign verify a m kn s). Qed.
+Print Assumptions C16_verifies.
+
 (* signature lengths: never more than reserved; a reserved space of >= 253 octets must be filled *)
 Theorem C16_sig_length sign a m s :
   new_cert sign a = Ok m -> c_signer a = Some s ->
